@@ -62,11 +62,63 @@ def gen(rng, tier, shard, nshards):
             yield {'kind': 'cache', 'seed': rng.randrange(1 << 30)}
         if i % 3 == 1:
             yield {'kind': 'trimtwin', 'seed': rng.randrange(1 << 30)}
+        if i % 4 == 2:
+            yield {'kind': 'kvtype', 'pdim': rng.choice([1, 2]), 'seed': rng.randrange(1 << 30)}
 
 
 def check(case, ctx):
     return {'config': check_config, 'procs': check_procs, 'cache': check_cache, 'raw': check_normalised_from_raw,
-            'trimtwin': check_trim_twin}[case['kind']](case, ctx)
+            'trimtwin': check_trim_twin, 'kvtype': check_kv_type}[case['kind']](case, ctx)
+
+
+def check_kv_type(case, ctx):
+    """(fifth hunt) the knot vectors are handed over as tuples or numpy arrays (the setters take them): what works with knot vectors
+    normalised works with knot vectors kept as they are - evaluation, splitting, Bezier decomposition, knot insertion"""
+    from geomdl import operations
+    rng = random.Random(case['seed'])
+    pdim = case['pdim']
+    sd = G.rand_shape(rng, pdim, rational=False, clamped_only=True, maxextra=4, maxdeg=3, dim=3, pcls='uniform')
+    if not any(len(kv) > 2 * (p + 1) + 1 for kv, p in zip(sd['kvs'], sd['degrees'])):
+        raise Reject()         # at least two interior knots in some direction
+    forms = [tuple]
+    try:
+        import numpy as _np
+        forms.append(_np.array)
+    except ImportError:
+        pass
+    form = rng.choice(forms)
+    ctx.tag('kvtype', 'kvtype:' + form.__name__)
+    ctx.nontriv(True)
+    lohi = rng.choice([(0.0, 1.0), (0.0, 4.0), (2.0, 5.0)])
+
+    def run(norm):
+        o = G.build(dict(sd, normalize_kv=norm, kvs=[[amap(k, lohi) for k in kv] for kv in sd['kvs']]))
+        if pdim == 1:
+            o.knotvector = form(list(o.knotvector) if norm else [amap(k, lohi) for k in sd['kvs'][0]])
+        else:
+            o.knotvector_u = form([amap(k, lohi) for k in sd['kvs'][0]])
+            o.knotvector_v = form([amap(k, lohi) for k in sd['kvs'][1]])
+        out = {}
+        doms = G.domains_of(o)
+        mid = [a + 0.37 * (b - a) for a, b in doms]
+        for name, fn in (('evaluate_single', lambda: [round(c, 9) for c in G.evaluate_single(o, mid)]),
+                         ('split', lambda: len(operations.split_curve(o, mid[0]) if pdim == 1 else operations.split_surface_u(o, mid[0]))),
+                         ('decompose', lambda: len(operations.decompose_curve(o) if pdim == 1 else operations.decompose_surface(o))),
+                         ('insert_knot', lambda: len(operations.insert_knot(o, mid, [1] * pdim).ctrlpts))):
+            try:
+                out[name] = ('ok', fn())
+            except Exception as e:
+                out[name] = ('raised', type(e).__name__)
+        return out
+    with so.quiet():
+        A, B = run(True), run(False)
+    for name in A:
+        if A[name][0] != 'ok':
+            continue
+        ctx.check(B[name][0] == 'ok' and (name == 'evaluate_single' or B[name][1] == A[name][1]) and
+                  (name != 'evaluate_single' or near(B[name][1], A[name][1], 1e-7 * max(1.0, max(abs(c) for c in A[name][1])))),
+                  'config/kv-type/%s' % name, '%s with %s knot vectors on %r: normalize_kv=True gives %r, normalize_kv=False %r'
+                  % (name, form.__name__, lohi, A[name], B[name]), what='unnormalized')
 
 
 # -- (a) span function / evaluator / knot range ------------------------------------------------------------------------------------
